@@ -59,6 +59,7 @@ class Variable(base.Expression):
         variable_name: str,
         point: Point
     ) -> float:
+        self._evaluate(point)
         if self.name == variable_name:
             return 1
         else:
@@ -79,6 +80,7 @@ class Variable(base.Expression):
         multiplier: float,
         point: Point
     ) -> None:
+        self._evaluate(point)
         accumulator.add_to(self, multiplier)
 
     def _compute_synthetic_partials(
